@@ -211,6 +211,14 @@ def gen_transform(rng, n):
             bins = bins[::-1]
         elif r < 0.55 and len(bins) >= 3:
             bins[0], bins[1] = bins[1], bins[0]
+        elif r < 0.7:
+            # not strictly monotonic without ever turning back: a repeated edge (in either listing order), all edges equal
+            k = rng.randrange(len(bins) - 1)
+            bins[k + 1] = bins[k]
+            if rng.random() < 0.25:
+                bins = [bins[0]] * len(bins)
+            if rng.random() < 0.5:
+                bins = bins[::-1]
         out.append({"ev": "TransformIll", "t": {"periodic": rng.choice([False, False, True, "default"]), "method": method,
                                                 "has_outer": rng.random() < 0.6, "bins": bins,
                                                 "bypass": rng.choice(["none", "none", "true", "false"]), "target_da": rng.random() < 0.3,
